@@ -1138,6 +1138,105 @@ def _threshold(cond, dsq):
     return None
 
 
+# --------------------------------------------------------------------------
+# R08.4 every piece of the result is the great-circle angle (results with more pieces than chord + near-antipodal override)
+# --------------------------------------------------------------------------
+# However many cases the function distinguishes, each of them has to return the angle.  Two exact forms are known to the check:
+# 2*asin(|p1-p2|/2) (the angle for every pair) and pi - asin|p1 x p2| (the angle for separations of at least 90 degrees, |p1-p2|^2 >= 2).
+# A piece that is neither is positively NOT the angle when it is an algebraic function of the points' Cartesian coordinates -- built
+# from numbers and sin/cos of (linear forms of) the input angles by + * / rational powers |.| min max, with no inverse trigonometric
+# function -- and is selected on a range of separations: on the equator with ra2 = 0 the angle is the longitude ra1 itself, and x is
+# not algebraic over the functions sin(c*x), cos(c*x), so no such term equals the angle on an interval (the chord |p1-p2|, a truncated
+# series in it, a constant, ... all differ from the angle there: the chord is short by d^3/24).  Whether the piece is selected on a
+# range is decided on its path: every condition must be a bound on the squared chord (which takes every value of [0, 4]) and the
+# bounds must leave an interval with interior.  Anything else (other inverse-trig forms, the input angles outside sin/cos, conditions
+# that are not bounds on the chord) is not recognised: no verdict from this rule.
+
+_INVERSE_TRIG = (sp.asin, sp.acos, sp.atan, sp.atan2, sp.acot, sp.asec, sp.acsc)
+
+
+def _algebraic_in_coordinates(v, syms):
+    """the term is an algebraic function of sin/cos of linear forms of the inputs (whitelist; the inputs occur nowhere else)"""
+    if v.is_number:
+        return bool(v.is_finite)
+    if isinstance(v, (sp.sin, sp.cos)):
+        try:
+            a = sp.expand(v.args[0])
+            return all(sp.diff(a, s_).is_number for s_ in a.free_symbols) and a.free_symbols <= set(syms)
+        except Exception:
+            return False
+    if isinstance(v, sp.Pow):
+        return bool(v.exp.is_Rational) and _algebraic_in_coordinates(v.base, syms)
+    if isinstance(v, (sp.Add, sp.Mul, sp.Abs, sp.Min, sp.Max)):
+        return all(_algebraic_in_coordinates(a, syms) for a in v.args)
+    return False
+
+
+def _chord_interval(path, dsq):
+    """the range of the squared chord a path selects, (lo, hi, lo strict, hi strict), when every condition of the path is a bound on
+    the squared chord; None when one of them is something else.  `all the other elements too` unknowns (a whole-array fast path)
+    are satisfiable whatever this pair is -- take an array of one pair -- and bound nothing."""
+    lo, hi = sp.Integer(0), sp.Integer(4)
+    for c, pol in path:
+        pc = _pos(c, pol)
+        for a in (pc.args if isinstance(pc, sp.And) else (pc,)):
+            b = a.args[0] if isinstance(a, sp.Not) else a
+            if isinstance(b, sp.Symbol) and b.name.startswith("ALL_OTHER_ELEMENTS_"):
+                continue
+            if isinstance(a, sp.Not):
+                try:
+                    a = a.args[0].negated
+                except Exception:
+                    return None
+            if not isinstance(a, (sp.Ge, sp.Gt, sp.Le, sp.Lt)):
+                return None
+            t = _threshold(a, dsq)
+            if t is not None and t.is_number and t.is_real:
+                lo = sp.Max(lo, t)
+                continue
+            t = _threshold(a.negated, dsq)             # not (dsq >= t): an upper bound
+            if t is not None and t.is_number and t.is_real:
+                hi = sp.Min(hi, t)
+                continue
+            return None
+    return lo, hi
+
+
+def pieces_rule(chk, fi, tag, rest, syms, dsq, crosssq, outf):
+    """judges each piece of a result that is not of the chord + override shape (see above)"""
+    for i, (v, path) in enumerate(rest):
+        if not isinstance(v, sp.Basic) or v.has(sp.Piecewise):
+            continue
+        key = "%s::piece-is-the-angle#%d" % (tag, i + 1)
+        rng = _chord_interval(path, dsq)
+        if rng is None:
+            continue
+        lo, hi = rng
+        try:
+            if not bool(lo < hi):
+                continue                    # selects no range of separations (a single value of the chord at most): not judged here
+        except Exception:
+            continue
+        sel = "%s <= |p1-p2|^2 <= %s" % (lo, hi)
+        if symx.equal(v, outf * 2 * sp.asin(sp.sqrt(dsq) / 2))[0]:
+            chk.ob("R08.4", key, True, fi.where(), "the piece selected for %s is 2*asin(|p1-p2|/2), the angle for every pair" % sel)
+            continue
+        if symx.equal(v, outf * (sp.pi - sp.asin(sp.sqrt(crosssq))))[0]:
+            ok = bool(lo >= 2)
+            chk.ob("R08.4", key, ok, fi.where(),
+                   "the piece selected for %s is pi - asin|p1 x p2|, which is the angle only for separations of at least 90 degrees "
+                   "(|p1-p2|^2 >= 2)%s" % (sel, "" if ok else ": it is used below that, where the angle is asin|p1 x p2| itself"))
+            continue
+        if v.has(*_INVERSE_TRIG) or not _algebraic_in_coordinates(v, syms):
+            continue                        # another form of the angle, or not a term this rule can judge: no verdict from it
+        chk.ob("R08.4", key, False, fi.where(),
+               "every piece of the result is the great-circle angle, which takes an inverse trigonometric function of the points' "
+               "coordinates (2*asin(|p1-p2|/2), pi - asin|p1 x p2|): the piece selected for %s is `%s`, an algebraic function of the "
+               "Cartesian coordinates with no inverse trigonometric function in it; such a term cannot equal the angle on a range of "
+               "separations (the chord itself is short by d^3/24: 2.4e-6 degree at 0.57 degree, far above 1e-11 degree)"
+               % (sel, str(v)[:200]))
+
+
 def check_chord(chk, fi, tag, r, syms, uin, uout):
     ra1, dec1, ra2, dec2 = syms
     p1 = xyz(ra1, dec1, uin)
@@ -1163,6 +1262,7 @@ def check_chord(chk, fi, tag, r, syms, uin, uout):
     if any(v.has(sp.Piecewise) for v, _ in rest) or len(rest) > 2 or not rest:
         chk.ob("R08.4", tag + "::two-branch-structure", None, fi.where(),
                "expected a chord piece and a near-antipodal piece, found %d pieces: %s" % (len(rest), str([p for _, p in rest])[:200]))
+        pieces_rule(chk, fi, tag, rest, syms, dsq, crosssq, outf)
         return
     if len(rest) == 1:
         ok1 = None if rest[0][1] else False
@@ -1173,6 +1273,7 @@ def check_chord(chk, fi, tag, r, syms, uin, uout):
     two = len(pa) == 1 and len(pb) == 1 and pa[0][0] == pb[0][0] and pa[0][1] != pb[0][1]
     if not two:
         chk.ob("R08.4", tag + "::two-branch-structure", None, fi.where(), "the two pieces are not selected by one condition and its negation: %s / %s" % (pa, pb))
+        pieces_rule(chk, fi, tag, rest, syms, dsq, crosssq, outf)
         return
     chk.ob("R08.4", tag + "::two-branch-structure", True, fi.where(), "chord branch with a near-antipodal override branch")
     # which piece is the near-antipodal one: the one selected where the squared chord is large
